@@ -441,6 +441,9 @@ func TestVerifC18(t *testing.T) {
 				}
 			}
 			idx++
+			if !r.Guard(kit.M{"subscribers": cfg.subs, "ops": prefix}) {
+				return // this sequence aborted the process before: recorded, not expanded
+			}
 			// execute the prefix on a fresh world
 			x := newC18World(cfg.subs, cfg.two)
 			for _, op := range prefix {
